@@ -139,9 +139,8 @@ PROPS = {
     "C08": {
         "engines": [("c08", "main")],
         "lean": ["PgsVerif.Props.C08"],
-        "category": "exploration",
         "rule": "curated worlds + seeded random protodesc-valid worlds (see C01: 1-5 files, import DAGs with public re-exports and unused imports, shared/nested/empty packages, both proto2 spellings and proto3, nesting depth <= 4, map entries interleaved among nested types, real/synthetic oneofs, all scalar kinds x labels x map keys, enum/message references to same file / direct imports / publicly re-exported files, recursion, extensions at file and message scope, services, SourceCodeInfo); observed: per entity the tag of the attached location (or none), per file the syntax/package statement locations; every declaration carries a uniquely tagged location, interleaved with distractors (names, numbers, options, ranges, unknown field numbers, odd and even lengths, option paths below leaf declarations), whole-file location first, rest shuffled; non-trivial = world with at least one message (C04: at least 2 files)",
-        "level_text": "THEOREMS PENDING (level exploration until proved): executable Lean model of ast.go's hydration and of the accessors compared with the real AST on every generated world; Phi_C08: info(entity) = the location whose path is the declaration path, distractors change nothing; syntax/package statement infos = locations [12]/[2] - evaluated on every observed AST.",
+        "level_text": "Lean theorems (Props/C08) over the transcription of the childAtPath chain (file/message/enum/service, preservedMsgs indexing, odd-length rule) and of hydrateSourceCodeInfo's routing fold, for EVERY file and EVERY path: C08_no_other (whatever entity a path is routed to is the entity whose declaration path IS that path), C08_designated (the path of every declared message, field, oneof, enum, enum value, service, method and extension, at any nesting depth and with map entries occupying nested-type indices, is routed to that declaration; induction over the nested message structure composing routes), C08_only_designated / C08_attached (lifted to the state built by folding over all locations), C08_info (with one location per path, the information reported for a declaration is that of the location whose path designates it, none if there is none, whatever distractor locations are present). The syntax/package statement infos are Phi+K only (domain note: whole-file location before the syntax location).",
         "level_note": "Trusted: protodesc.NewFiles defines 'valid request'; descriptor pointer identity as entity identity; protoreflect (protobuf-go v1.23.0) as the reference for 'protobuf's own semantics'.",
     },
     "C09": {
